@@ -63,6 +63,20 @@ pub fn check_case(space: &str, choices: &[u32], c: &FCase, rep: &Report) {
     rep.outputs.add_of(&joint.out);
     if !matches!(joint.out, Out::Impls(_)) || joint.impls.is_empty() {
         rep.count("joint_not_comparable(rejected/unparsable/panic)", 1);
+        // ... but when the input restricted to EACH counterpart alone is accepted, nothing the joint input adds (instructions
+        // for the other counterpart) may make it fail: the impls for either counterpart would exist without the other's
+        if matches!(joint.out, Out::Errs(_) | Out::Panic(_)) {
+            let both_ok = [("T", ["U"]), ("U", ["T"])].iter().all(|(keep, others)| {
+                let pe = expand_item(&project(&c.item, keep, others).render());
+                rep.eval(1);
+                matches!(pe.out, Out::Impls(_)) && !pe.impls.is_empty()
+            });
+            if both_ok {
+                let mut f = fail(space, choices, &joint_src, &c.tags, "joint-rejected", format!("each counterpart alone is accepted, both together give {}", match &joint.out { Out::Errs(m) => format!("{:?}", m), Out::Panic(m) => format!("panic: {}", m), _ => String::new() }));
+                f.expected = "the impls of both single-counterpart inputs".into();
+                rep.fail(f);
+            }
+        }
         return;
     }
     rep.nontrivial.add_of(&joint_src);
